@@ -899,3 +899,686 @@ Qed.
 Theorem rename_run sp evs : forall cur, run_with (step_with sp) D' evs cur = run_with (step_with sp) D evs cur.
 Proof. induction evs as [|e evs IH]; intros cur; simpl; auto. rewrite rename_step, IH. reflexivity. Qed.
 End Rename.
+
+(* ================= extensionality: everything depends on environments pointwise ================= *)
+Definition eqe (a b : env) : Prop := forall i, a i = b i.
+Definition eqs (a b : slots) : Prop := eqe (s_curr a) (s_curr b) /\ eqe (s_next a) (s_next b).
+
+Lemma eqe_refl a : eqe a a. Proof. intro; reflexivity. Qed.
+Lemma eqe_sym a b : eqe a b -> eqe b a. Proof. intros H i; symmetry; apply H. Qed.
+Lemma eqe_trans a b c : eqe a b -> eqe b c -> eqe a c. Proof. intros H1 H2 i; rewrite H1; apply H2. Qed.
+
+Section stmt_ind2.
+  Variable P : stmt -> Prop.
+  Hypothesis Has : forall l r, P (SAssign l r).
+  Hypothesis Hsw : forall t cs, Forall (fun c => Forall P (snd c)) cs -> P (SSwitch t cs).
+  Fixpoint stmt_ind2 (s : stmt) : P s :=
+    match s with
+    | SAssign l r => Has l r
+    | SSwitch t cs =>
+        Hsw t cs ((fix go (cs : list (option (list pattern) * list stmt)) : Forall (fun c => Forall P (snd c)) cs :=
+                     match cs with
+                     | [] => Forall_nil _
+                     | c :: cs' => Forall_cons _ ((fix run (ss : list stmt) : Forall P ss :=
+                                                     match ss with
+                                                     | [] => Forall_nil _
+                                                     | s' :: ss' => Forall_cons _ (stmt_ind2 s') (run ss')
+                                                     end) (snd c)) (go cs')
+                     end) cs)
+    end.
+End stmt_ind2.
+
+Lemma eval_rtl_ext en en' : eqe en en' -> forall e, eval_rtl en e = eval_rtl en' e.
+Proof.
+  intros H. induction e as [v s|j s|o a IHa|o a b0 IHa IHb|a lo hi IHa|a off w st IHa IHoff|l IH|t cs IHt IHcs]
+    using expr_ind'; cbn [eval_rtl].
+  - reflexivity.
+  - apply H.
+  - rewrite IHa. reflexivity.
+  - rewrite IHa, IHb. reflexivity.
+  - rewrite IHa. reflexivity.
+  - rewrite IHa, IHoff. reflexivity.
+  - f_equal. apply map_ext_in. intros p Hp. rewrite Forall_forall in IH. rewrite IH by auto. reflexivity.
+  - rewrite IHt. f_equal. apply map_ext_in. intros c Hc. rewrite Forall_forall in IHcs. rewrite IHcs by auto. reflexivity.
+Qed.
+
+Lemma lread_ext curr curr' nx nx' : eqe curr curr' -> eqe nx nx' -> forall e, lread curr nx e = lread curr' nx' e.
+Proof.
+  intros Hc Hn. induction e as [v s|j s|o a IHa|o a b0 IHa IHb|a lo hi IHa|a off w st IHa IHoff|l IH|t cs IHt IHcs]
+    using expr_ind'; cbn [lread].
+  - reflexivity.
+  - apply Hn.
+  - destruct o; auto; apply (eval_rtl_ext nx nx' Hn (EOp1 _ a)).
+  - apply (eval_rtl_ext nx nx' Hn (EOp2 o a b0)).
+  - rewrite IHa. reflexivity.
+  - rewrite IHa. rewrite (eval_rtl_ext curr curr' Hc off). reflexivity.
+  - f_equal. apply map_ext_in. intros p Hp. rewrite Forall_forall in IH. rewrite IH by auto. reflexivity.
+  - rewrite (eval_rtl_ext curr curr' Hc t). f_equal. apply map_ext_in. intros c Hcs.
+    rewrite Forall_forall in IHcs. rewrite IHcs by auto. reflexivity.
+Qed.
+
+Lemma upd_ext nx nx' i v : eqe nx nx' -> eqe (upd nx i v) (upd nx' i v).
+Proof. intros H j. unfold upd. destruct (Nat.eqb j i); auto. Qed.
+
+Lemma assign_rtl_ext curr curr' : eqe curr curr' ->
+  forall lhs arg nx nx', eqe nx nx' -> eqe (assign_rtl curr lhs arg nx) (assign_rtl curr' lhs arg nx').
+Proof.
+  intros Hc. induction lhs as [v s|j s|o a IHa|o a b0 IHa IHb|a lo hi IHa|a off w st IHa IHoff|l IH|t cs IHt IHcs]
+    using expr_ind'; intros arg nx nx' Hn; cbn [assign_rtl].
+  - exact Hn.
+  - apply upd_ext; auto.
+  - destruct o; auto.
+  - exact Hn.
+  - rewrite (lread_ext curr curr' nx nx' Hc Hn a). apply IHa; auto.
+  - rewrite (lread_ext curr curr' nx nx' Hc Hn a). rewrite (eval_rtl_ext curr curr' Hc off). apply IHa; auto.
+  - generalize 0 as offset. revert nx nx' Hn. induction l as [|p ps IHl]; intros nx nx' Hn offset; auto.
+    inversion IH as [|? ? Hp Hps]; subst. apply IHl; auto.
+  - rewrite (eval_rtl_ext curr curr' Hc t). generalize (use_match (map fst cs)) as um0. intro um0.
+    induction cs as [|c cs' IHl]; auto. inversion IHcs as [|? ? Hp Hps]; subst.
+    destruct (rtl_case_match _ _ (fst c)); auto.
+Qed.
+
+Lemma exec_rtl_ext curr curr' : eqe curr curr' ->
+  forall s nx nx', eqe nx nx' -> eqe (exec_rtl curr s nx) (exec_rtl curr' s nx').
+Proof.
+  intros Hc. induction s as [l r|t cs IH] using stmt_ind2; intros nx nx' Hn; cbn [exec_rtl].
+  - rewrite (eval_rtl_ext curr curr' Hc r). apply assign_rtl_ext; auto.
+  - rewrite (eval_rtl_ext curr curr' Hc t). generalize (use_match (map fst cs)) as um0. intro um0.
+    induction cs as [|c cs' IHl]; auto. inversion IH as [|? ? Hp Hps]; subst.
+    destruct (rtl_case_match _ _ (fst c)); auto.
+    clear IHl Hps. revert nx nx' Hn. induction (snd c) as [|s' ss' IHs]; intros nx nx' Hn; auto.
+    inversion Hp; subst. apply IHs; auto.
+Qed.
+
+Lemma exec_rtl_list_ext curr curr' : eqe curr curr' ->
+  forall ss nx nx', eqe nx nx' -> eqe (exec_rtl_list curr ss nx) (exec_rtl_list curr' ss nx').
+Proof.
+  intros Hc. unfold exec_rtl_list. induction ss as [|s ss IH]; intros nx nx' Hn; simpl; auto.
+  apply IH. apply exec_rtl_ext; auto.
+Qed.
+
+Lemma ctl_on_ext curr curr' c : eqe curr curr' -> ctl_on curr c = ctl_on curr' c.
+Proof. intros H. unfold ctl_on. rewrite (eval_rtl_ext curr curr' H c). reflexivity. Qed.
+
+Lemma comb_process_ext tab ss st st' : eqs st st' -> eqs (comb_process tab ss st) (comb_process tab ss st').
+Proof.
+  intros [Hc Hn]. split; [exact Hc|]. intros i. unfold comb_process; cbn [s_next s_curr]. rewrite (Hn i).
+  destruct (stmts_mask ss i =? 0); auto. f_equal.
+  apply exec_rtl_list_ext; auto. intros j. rewrite (Hn j). reflexivity.
+Qed.
+
+Lemma sync_ctl_ext tab ss rst en rs st st' : eqs st st' ->
+  eqs (sync_ctl tab ss rst en rs st) (sync_ctl tab ss rst en rs st').
+Proof.
+  intros [Hc Hn]. split; [exact Hc|]. intros i. unfold sync_ctl; cbn [s_next s_curr]. rewrite (Hn i).
+  destruct (stmts_mask ss i =? 0); auto. f_equal.
+  replace (match rst with Some r => negb (Z.land 1 (s_curr st' r) =? 0) | None => false end)
+    with (match rst with Some r => negb (Z.land 1 (s_curr st r) =? 0) | None => false end)
+    by (destruct rst; auto; rewrite (Hc n); reflexivity).
+  destruct (_ && _); auto. destruct en; auto. apply exec_rtl_list_ext; auto.
+Qed.
+
+Lemma freeze_eqe n a : eqe (freeze n a) a.
+Proof. intro i. apply freeze_eq. Qed.
+
+Lemma differs_ext n a a' b b' : eqe a a' -> eqe b b' -> differs n a b = differs n a' b'.
+Proof.
+  intros Ha Hb. unfold differs. induction (seq 0 n) as [|x l IH]; simpl; auto. rewrite IH, (Ha x), (Hb x). reflexivity.
+Qed.
+
+Lemma fired_ext c old old' new new' : eqe old old' -> eqe new new' -> fired c old new = fired c old' new'.
+Proof.
+  intros Ho Hn. unfold fired, clk_edge, rst_rise. rewrite (Ho (d_clk c)), (Hn (d_clk c)).
+  destruct (d_rst c) as [r|]; auto. rewrite (Ho r), (Hn r). reflexivity.
+Qed.
+
+Lemma apply_writes_ext e : forall a a', eqe a a' -> eqe (apply_writes e a) (apply_writes e a').
+Proof.
+  unfold apply_writes. induction e as [|w e IH]; intros a a' H; simpl; auto. apply IH. apply upd_ext; auto.
+Qed.
+
+(* fold of related process functions over related slots *)
+Lemma fold_eqs {A B} (F : slots -> A -> slots) (G : slots -> B -> slots) (g : B -> A) l :
+  (forall x st st', In x l -> eqs st st' -> eqs (F st (g x)) (G st' x)) ->
+  forall st st', eqs st st' -> eqs (fold_left F (map g l) st) (fold_left G l st').
+Proof.
+  induction l as [|x l IH]; intros H st st' Hs; simpl; auto.
+  apply IH; [intros; apply H; simpl; auto|]. apply H; simpl; auto.
+Qed.
+
+Lemma settle_ext D : forall fuel cur cur', eqe cur cur' -> eqe (settle fuel D cur) (settle fuel D cur').
+Proof.
+  induction fuel as [|k IH]; intros cur cur' H; cbn [settle]; auto.
+  set (a := s_next (eval_phase _ _ _ _ {| s_curr := cur; s_next := cur |})).
+  set (a' := s_next (eval_phase _ _ _ _ {| s_curr := cur'; s_next := cur' |})).
+  assert (Ha : eqe a a').
+  { unfold a, a', eval_phase. rewrite <- (map_id (g_procs D)) at 1.
+    apply (fold_eqs _ _ (fun x => x)); [|split; exact H].
+    intros p st st' _ Hs. unfold run_proc. destruct (Nat.eqb (fst p) 0); auto. apply comb_process_ext; auto. }
+  assert (Hf : eqe (freeze (g_nsig D) a) (freeze (g_nsig D) a')).
+  { eapply eqe_trans; [apply freeze_eqe|]. eapply eqe_trans; [exact Ha|]. apply eqe_sym, freeze_eqe. }
+  rewrite (differs_ext _ cur cur' _ _ H Hf). destruct (differs _ _ _); auto.
+Qed.
+
+(* a process rewriting that keeps the domain and the comb processes does not change the comb-only deltas *)
+Lemma settle_map_procs T D :
+  (forall p, In p (g_procs D) -> fst (T p) = fst p /\ (fst p = 0%nat -> T p = p)) ->
+  forall fuel cur, settle fuel (map_procs T D) cur = settle fuel D cur.
+Proof.
+  intros HT. induction fuel as [|k IH]; intros cur; cbn [settle]; auto.
+  assert (E : eval_phase (g_tab (map_procs T D)) (g_doms (map_procs T D)) (fun _ => false) (g_procs (map_procs T D))
+                {| s_curr := cur; s_next := cur |}
+            = eval_phase (g_tab D) (g_doms D) (fun _ => false) (g_procs D) {| s_curr := cur; s_next := cur |}).
+  { unfold eval_phase, map_procs. cbn [g_tab g_doms g_procs]. apply fold_left_map_ext. intros a x Hx.
+    destruct (HT x Hx) as [H1 H2]. unfold run_proc. rewrite H1.
+    destruct (Nat.eqb (fst x) 0) eqn:E; auto. apply Nat.eqb_eq in E. rewrite (H2 E). reflexivity. }
+  rewrite E. unfold map_procs at 1 2 3. cbn [g_nsig]. destruct (differs _ _ _); auto.
+Qed.
+
+(* ================= refinement: transformed design run = spec run of the original design ================= *)
+Section Refine.
+Variables (D : design) (T : nat * list stmt -> nat * list stmt) (en_of rs_of : nat -> env -> bool).
+Hypothesis HT : forall p, In p (g_procs D) -> fst (T p) = fst p /\ (fst p = 0%nat -> T p = p).
+(* one activation of a transformed sync process is `sync_ctl` of the original one *)
+Hypothesis Hproc : forall p, In p (g_procs D) -> fst p <> 0%nat -> forall rst st i,
+  s_next (sync_process (g_tab D) (snd (T p)) rst st) i
+  = s_next (sync_ctl (g_tab D) (snd p) rst (en_of (fst p) (s_curr st)) (rs_of (fst p) (s_curr st)) st) i.
+Hypothesis Hen : forall d a a', eqe a a' -> en_of d a = en_of d a'.
+Hypothesis Hrs : forall d a a', eqe a a' -> rs_of d a = rs_of d a'.
+
+Theorem refine_step e cur cur' : eqe cur cur' ->
+  eqe (step (map_procs T D) e cur) (step_ctl en_of rs_of D e cur').
+Proof.
+  intros Hcur. unfold step. rewrite step_with_unfold. cbv zeta. unfold step_ctl, step_gen.
+  change (fuel_of (map_procs T D)) with (fuel_of D). change (g_nsig (map_procs T D)) with (g_nsig D).
+  rewrite settle_map_procs by exact HT.
+  apply settle_ext.
+  eapply eqe_trans; [apply freeze_eqe|]. eapply eqe_trans; [|apply eqe_sym, freeze_eqe].
+  set (nx := freeze (g_nsig D) (apply_writes e cur)). set (nx' := freeze (g_nsig D) (apply_writes e cur')).
+  assert (Hnx : eqe nx nx').
+  { unfold nx, nx'. eapply eqe_trans; [apply freeze_eqe|]. eapply eqe_trans; [|apply eqe_sym, freeze_eqe].
+    apply apply_writes_ext; auto. }
+  cbn [g_procs map_procs].
+  assert (G : forall l, incl l (g_procs D) -> forall st st', eqs st st' -> eqe (s_curr st') nx' ->
+            eqs (fold_left (delta2 sync_code (map_procs T D) cur nx) (map T l) st)
+                (fold_left (ctl_proc (g_tab D) (g_doms D) en_of rs_of cur' nx') l st')).
+  { induction l as [|p l IH]; intros Hl st st' Hs Hc'; simpl; auto.
+    assert (Hin : In p (g_procs D)) by (apply Hl; simpl; auto).
+    destruct (HT p Hin) as [H1 H2].
+    assert (Hstep : eqs (delta2 sync_code (map_procs T D) cur nx st (T p))
+                        (ctl_proc (g_tab D) (g_doms D) en_of rs_of cur' nx' st' p)).
+    { unfold delta2, ctl_proc. cbn [g_tab g_doms map_procs]. rewrite H1.
+      destruct (Nat.eqb (fst p) 0) eqn:E0.
+      - apply Nat.eqb_eq in E0. rewrite (H2 E0). apply comb_process_ext; auto.
+      - apply Nat.eqb_neq in E0. unfold sync_code. rewrite (fired_ext _ cur cur' nx nx' Hcur Hnx).
+        destruct (fired _ _ _); auto.
+        destruct Hs as [Hsc Hsn]. split; [exact Hsc|]. intros i.
+        rewrite (Hproc p Hin E0).
+        rewrite (Hen (fst p) (s_curr st) nx'), (Hrs (fst p) (s_curr st) nx')
+          by (eapply eqe_trans; [exact Hsc|exact Hc']).
+        apply (sync_ctl_ext (g_tab D) (snd p) _ _ _ st st'). split; auto. }
+    apply IH; auto.
+    - intros q Hq. apply Hl. simpl. auto.
+    - unfold ctl_proc. destruct (Nat.eqb (fst p) 0); [exact Hc'|]. destruct (fired _ _ _); exact Hc'. }
+  apply G; [apply incl_refl| split; exact Hnx | apply eqe_refl].
+Qed.
+
+(* over every event sequence, from related states *)
+Theorem refine_trace : forall evs cur cur', eqe cur cur' ->
+  eqe (state_after (step (map_procs T D)) evs cur) (state_after (step_ctl en_of rs_of D) evs cur').
+Proof.
+  unfold state_after. induction evs as [|e evs IH]; intros cur cur' H; simpl; auto.
+  apply IH. apply refine_step. auto.
+Qed.
+End Refine.
+
+(* ================= the inserters on fragment trees are maps over the process list ================= *)
+Section frag_ind2.
+  Variable P : frag -> Prop.
+  Hypothesis H : forall st ms subs, Forall P subs -> P (Frag st ms subs).
+  Fixpoint frag_ind2 (f : frag) : P f :=
+    match f with
+    | Frag st ms subs => H st ms subs ((fix go (l : list frag) : Forall P l :=
+                                   match l with [] => Forall_nil _ | x :: xs => Forall_cons _ (frag_ind2 x) (go xs) end) subs)
+    end.
+End frag_ind2.
+
+Lemma flatten_map_entries (T : nat * list stmt -> nat * list stmt) (X : frag -> frag) :
+  (forall st ms subs, exists ms', X (Frag st ms subs) = Frag (map T st) ms' (map X subs)) ->
+  forall f, flatten (X f) = map T (flatten f).
+Proof.
+  intros HX. induction f as [st ms subs IH] using frag_ind2. destruct (HX st ms subs) as [ms' ->]. cbn [flatten]. rewrite map_app. f_equal.
+  induction subs as [|s subs IHs]; auto. inversion IH; subst. cbn [map flat_map]. rewrite map_app. f_equal; auto.
+Qed.
+
+Lemma flatten_reset tab ctl f : flatten (reset_inserter tab ctl f) = map (reset_entry tab ctl) (flatten f).
+Proof. apply flatten_map_entries. intros; eexists; reflexivity. Qed.
+Lemma flatten_enable ctl f : flatten (enable_inserter ctl f) = map (enable_entry ctl) (flatten f).
+Proof. apply flatten_map_entries. intros; eexists; reflexivity. Qed.
+
+Lemma mk_design_reset tab doms ctl f n :
+  mk_design tab doms (reset_inserter tab ctl f) n = map_procs (reset_entry tab ctl) (mk_design tab doms f n).
+Proof. unfold mk_design, map_procs. cbn [g_tab g_doms g_procs g_nsig]. rewrite flatten_reset. reflexivity. Qed.
+Lemma mk_design_enable tab doms ctl f n :
+  mk_design tab doms (enable_inserter ctl f) n = map_procs (enable_entry ctl) (mk_design tab doms f n).
+Proof. unfold mk_design, map_procs. cbn [g_tab g_doms g_procs g_nsig]. rewrite flatten_enable. reflexivity. Qed.
+
+Definition ctl_ok (ctl : controls) : Prop := forall d c, lookup d ctl = Some c -> shape_of c = Sh 1 false.
+
+Lemma ctl_of_ext ctl dflt d a a' : eqe a a' -> ctl_of ctl dflt d a = ctl_of ctl dflt d a'.
+Proof. intros H. unfold ctl_of. destruct (lookup d ctl); auto. apply ctl_on_ext; auto. Qed.
+
+Lemma reset_entry_shape tab ctl p : fst (reset_entry tab ctl p) = fst p /\ (fst p = 0%nat -> reset_entry tab ctl p = p).
+Proof.
+  unfold reset_entry. destruct (Nat.eqb (fst p) 0) eqn:E; [auto|]. apply Nat.eqb_neq in E.
+  destruct (lookup (fst p) ctl); split; auto; intros; congruence.
+Qed.
+Lemma enable_entry_shape ctl p : fst (enable_entry ctl p) = fst p /\ (fst p = 0%nat -> enable_entry ctl p = p).
+Proof.
+  unfold enable_entry. destruct (Nat.eqb (fst p) 0) eqn:E; [auto|]. apply Nat.eqb_neq in E.
+  destruct (lookup (fst p) ctl); split; auto; intros; congruence.
+Qed.
+
+(* ResetInserter: over every event sequence the wrapped design is the original design run with the explicit
+   extra reset `ctl d` on every sync process of a named domain d (enable constantly high) *)
+Theorem reset_inserter_refines D ctl : tab_ok (g_tab D) -> ctl_ok ctl ->
+  (forall p, In p (g_procs D) -> fst p <> 0%nat -> lookup (fst p) ctl <> None -> collector_ok (g_tab D) (snd p)) ->
+  forall evs cur cur', eqe cur cur' ->
+  eqe (state_after (step (map_procs (reset_entry (g_tab D) ctl) D)) evs cur)
+      (state_after (step_ctl (fun _ _ => true) (ctl_of ctl false) D) evs cur').
+Proof.
+  intros Ht Hc Hk. apply refine_trace.
+  - intros p _. apply reset_entry_shape.
+  - intros p Hin H0 rst st i. unfold reset_entry, ctl_of.
+    replace (Nat.eqb (fst p) 0) with false by (symmetry; apply Nat.eqb_neq; auto).
+    destruct (lookup (fst p) ctl) as [c|] eqn:E.
+    + cbn [snd]. apply reset_process; eauto. apply Hk; auto. congruence.
+    + symmetry. apply sync_ctl_plain.
+  - reflexivity.
+  - intros; apply ctl_of_ext; auto.
+Qed.
+
+Theorem enable_inserter_refines D ctl : ctl_ok ctl ->
+  forall evs cur cur', eqe cur cur' ->
+  eqe (state_after (step (map_procs (enable_entry ctl) D)) evs cur)
+      (state_after (step_ctl (ctl_of ctl true) (fun _ _ => false) D) evs cur').
+Proof.
+  intros Hc. apply refine_trace.
+  - intros p _. apply enable_entry_shape.
+  - intros p Hin H0 rst st i. unfold enable_entry, ctl_of.
+    replace (Nat.eqb (fst p) 0) with false by (symmetry; apply Nat.eqb_neq; auto).
+    destruct (lookup (fst p) ctl) as [c|] eqn:E.
+    + cbn [snd]. apply enable_process; eauto.
+    + symmetry. apply sync_ctl_plain.
+  - intros; apply ctl_of_ext; auto.
+  - reflexivity.
+Qed.
+
+(* the spec run without controls is the run of the design itself *)
+Theorem step_ctl_plain D : forall evs cur cur', eqe cur cur' ->
+  eqe (state_after (step D) evs cur) (state_after (step_ctl (fun _ _ => true) (fun _ _ => false) D) evs cur').
+Proof.
+  assert (E : map_procs (fun p => p) D = D) by (destruct D; unfold map_procs; cbn; rewrite map_id; reflexivity).
+  intros evs cur cur' H. rewrite <- E at 1. apply refine_trace; auto.
+  intros p Hin H0 rst st i. symmetry. apply sync_ctl_plain.
+Qed.
+
+Lemma existsb_ctl_on_ext a a' cs : eqe a a' -> existsb (ctl_on a) cs = existsb (ctl_on a') cs.
+Proof. intros H. induction cs as [|c cs IH]; simpl; auto. rewrite (ctl_on_ext a a' c H), IH. reflexivity. Qed.
+Lemma forallb_ctl_on_ext a a' cs : eqe a a' -> forallb (ctl_on a) cs = forallb (ctl_on a') cs.
+Proof. intros H. induction cs as [|c cs IH]; simpl; auto. rewrite (ctl_on_ext a a' c H), IH. reflexivity. Qed.
+
+(* n reset inserters and one inserter with the OR of the controls have the same trace (both refine the same
+   spec run); likewise n enable inserters and the AND *)
+Definition stack_entry (X : list stmt -> list stmt) (p : nat * list stmt) : nat * list stmt :=
+  if Nat.eqb (fst p) 0 then p else (fst p, X (snd p)).
+
+Lemma stack_entry_shape X p : fst (stack_entry X p) = fst p /\ (fst p = 0%nat -> stack_entry X p = p).
+Proof. unfold stack_entry. destruct (Nat.eqb (fst p) 0) eqn:E; [auto|]. apply Nat.eqb_neq in E. split; auto; congruence. Qed.
+
+Theorem reset_stack_refines D cs : tab_ok (g_tab D) -> Forall (fun c => shape_of c = Sh 1 false) cs ->
+  (forall p, In p (g_procs D) -> fst p <> 0%nat -> collector_ok_n (g_tab D) cs (snd p)) ->
+  forall evs cur cur', eqe cur cur' ->
+  eqe (state_after (step (map_procs (stack_entry (reset_n (g_tab D) cs)) D)) evs cur)
+      (state_after (step_ctl (fun _ _ => true) (fun _ nx => existsb (ctl_on nx) cs) D) evs cur').
+Proof.
+  intros Ht Hc Hk. apply refine_trace.
+  - intros p _. apply stack_entry_shape.
+  - intros p Hin H0 rst st i. unfold stack_entry.
+    replace (Nat.eqb (fst p) 0) with false by (symmetry; apply Nat.eqb_neq; auto). cbn [snd].
+    apply reset_n_process; auto.
+  - reflexivity.
+  - intros d a a' H. apply existsb_ctl_on_ext; auto.
+Qed.
+
+Theorem enable_stack_refines D cs : Forall (fun c => shape_of c = Sh 1 false) cs ->
+  forall evs cur cur', eqe cur cur' ->
+  eqe (state_after (step (map_procs (stack_entry (enable_n cs)) D)) evs cur)
+      (state_after (step_ctl (fun _ nx => forallb (ctl_on nx) cs) (fun _ _ => false) D) evs cur').
+Proof.
+  intros Hc. apply refine_trace.
+  - intros p _. apply stack_entry_shape.
+  - intros p Hin H0 rst st i. unfold stack_entry.
+    replace (Nat.eqb (fst p) 0) with false by (symmetry; apply Nat.eqb_neq; auto). cbn [snd].
+    apply enable_n_process; auto.
+  - intros d a a' H. apply forallb_ctl_on_ext; auto.
+  - reflexivity.
+Qed.
+
+(* one inserter whose control is asserted exactly when some (every) control of the stack is: same spec run *)
+Theorem reset_or_refines D c cs : tab_ok (g_tab D) -> shape_of c = Sh 1 false ->
+  (forall curr, ctl_on curr c = existsb (ctl_on curr) cs) ->
+  (forall p, In p (g_procs D) -> fst p <> 0%nat -> collector_ok (g_tab D) (snd p)) ->
+  forall evs cur cur', eqe cur cur' ->
+  eqe (state_after (step (map_procs (stack_entry (reset_n (g_tab D) [c])) D)) evs cur)
+      (state_after (step_ctl (fun _ _ => true) (fun _ nx => existsb (ctl_on nx) cs) D) evs cur').
+Proof.
+  intros Ht Hc Hor Hk. apply refine_trace.
+  - intros p _. apply stack_entry_shape.
+  - intros p Hin H0 rst st i. unfold stack_entry.
+    replace (Nat.eqb (fst p) 0) with false by (symmetry; apply Nat.eqb_neq; auto). cbn [snd].
+    unfold reset_n. cbn [fold_left]. rewrite reset_process by auto. rewrite Hor. reflexivity.
+  - reflexivity.
+  - intros d a a' H. apply existsb_ctl_on_ext; auto.
+Qed.
+
+Theorem enable_and_refines D c cs : shape_of c = Sh 1 false ->
+  (forall curr, ctl_on curr c = forallb (ctl_on curr) cs) ->
+  forall evs cur cur', eqe cur cur' ->
+  eqe (state_after (step (map_procs (stack_entry (enable_n [c])) D)) evs cur)
+      (state_after (step_ctl (fun _ nx => forallb (ctl_on nx) cs) (fun _ _ => false) D) evs cur').
+Proof.
+  intros Hc Hand. apply refine_trace.
+  - intros p _. apply stack_entry_shape.
+  - intros p Hin H0 rst st i. unfold stack_entry.
+    replace (Nat.eqb (fst p) 0) with false by (symmetry; apply Nat.eqb_neq; auto). cbn [snd].
+    unfold enable_n. cbn [fold_left]. rewrite enable_process by auto. rewrite Hand. reflexivity.
+  - intros d a a' H. apply forallb_ctl_on_ext; auto.
+  - reflexivity.
+Qed.
+
+(* ================= what the spec run guarantees (sole driver of a bit) ================= *)
+Lemma sync_ctl_frame tab ss rst en rs st i b : 0 <= b -> Z.testbit (um tab ss i) b = false ->
+  Z.testbit (s_next (sync_ctl tab ss rst en rs st) i) b = Z.testbit (s_next st i) b.
+Proof.
+  intros Hb H. unfold sync_ctl; cbn [s_next]. destruct (stmts_mask ss i =? 0); auto.
+  rewrite testbit_slot_update by lia. fold (um tab ss i). rewrite H. reflexivity.
+Qed.
+
+Definition sole_driver (D : design) (p : nat * list stmt) (i : nat) (b : Z) : Prop :=
+  exists l1 l2, g_procs D = l1 ++ p :: l2 /\
+    forall q, In q (l1 ++ l2) -> Z.testbit (um (g_tab D) (snd q) i) b = false.
+
+Section SpecRun.
+Variables (D : design) (en_of rs_of : nat -> env -> bool).
+Let F := ctl_proc (g_tab D) (g_doms D) en_of rs_of.
+
+Lemma ctl_proc_curr cur nx st p : s_curr (F cur nx st p) = s_curr st.
+Proof. unfold F, ctl_proc. destruct (Nat.eqb (fst p) 0); auto. destruct (fired _ _ _); auto. Qed.
+
+Lemma ctl_proc_frame cur nx st p i b : 0 <= b -> Z.testbit (um (g_tab D) (snd p) i) b = false ->
+  Z.testbit (s_next (F cur nx st p) i) b = Z.testbit (s_next st i) b.
+Proof.
+  intros Hb H. unfold F, ctl_proc. destruct (Nat.eqb (fst p) 0); [apply comb_frame; auto|].
+  destruct (fired _ _ _); auto. apply sync_ctl_frame; auto.
+Qed.
+
+Lemma ctl_fold_frame cur nx i b : 0 <= b -> forall l,
+  (forall q, In q l -> Z.testbit (um (g_tab D) (snd q) i) b = false) ->
+  forall st, s_curr (fold_left (F cur nx) l st) = s_curr st /\
+             Z.testbit (s_next (fold_left (F cur nx) l st) i) b = Z.testbit (s_next st i) b.
+Proof.
+  intros Hb. induction l as [|q l IH]; intros H st; simpl; auto.
+  destruct (IH (fun x Hx => H x (or_intror Hx)) (F cur nx st q)) as [I1 I2]. rewrite I1, I2.
+  split; [apply ctl_proc_curr|apply ctl_proc_frame; auto; apply H; simpl; auto].
+Qed.
+
+(* the bit after the step is the bit its sole driver computed from a state with the committed inputs *)
+Lemma step_ctl_sole e cur p i b : 0 <= b -> sole_driver D p i b -> fst p <> 0%nat ->
+  exists st, s_curr st = freeze (g_nsig D) (apply_writes e cur) /\
+    Z.testbit (s_next st i) b = Z.testbit (apply_writes e cur i) b /\
+    Z.testbit (step_ctl en_of rs_of D e cur i) b
+    = Z.testbit (s_next (F cur (freeze (g_nsig D) (apply_writes e cur)) st p) i) b.
+Proof.
+  intros Hb [l1 [l2 [Hsplit Hoth]]] Hp. unfold step_ctl, step_gen. fold F.
+  set (nx := freeze (g_nsig D) (apply_writes e cur)).
+  rewrite settle_frame; auto.
+  2:{ intros q Hq H0. rewrite Hsplit in Hq. apply in_app_or in Hq. destruct Hq as [Hq|[<-|Hq]];
+      [apply Hoth; apply in_or_app; auto|congruence|apply Hoth; apply in_or_app; auto]. }
+  rewrite freeze_eq. rewrite Hsplit, fold_left_app. cbn [fold_left].
+  destruct (ctl_fold_frame cur nx i b Hb l1 (fun q Hq => Hoth q (in_or_app _ _ _ (or_introl Hq)))
+              {| s_curr := nx; s_next := nx |}) as [A1 A2].
+  destruct (ctl_fold_frame cur nx i b Hb l2 (fun q Hq => Hoth q (in_or_app _ _ _ (or_intror Hq)))
+              (F cur nx (fold_left (F cur nx) l1 {| s_curr := nx; s_next := nx |}) p)) as [_ B2].
+  exists (fold_left (F cur nx) l1 {| s_curr := nx; s_next := nx |}). split; [exact A1|]. split; [|exact B2].
+  rewrite A2. cbn [s_next]. unfold nx. rewrite freeze_eq. reflexivity.
+Qed.
+
+(* reset asserted (the inserted one or the domain's own) at an own-domain edge: init *)
+Theorem ctl_reset_loads_init e cur p i b : 0 <= b -> sole_driver D p i b -> fst p <> 0%nat ->
+  (forall d a a', eqe a a' -> rs_of d a = rs_of d a') ->
+  Z.testbit (um (g_tab D) (snd p) i) b = true -> sd_reset_less (g_tab D i) = false ->
+  fired (g_doms D (fst p)) cur (apply_writes e cur) = true ->
+  rs_of (fst p) (apply_writes e cur) = true ->
+  Z.testbit (step_ctl en_of rs_of D e cur i) b = Z.testbit (sd_init (g_tab D i)) b.
+Proof.
+  intros Hb Hsole Hp Hrs Hd Hrl Hf Hon. destruct (step_ctl_sole e cur p i b Hb Hsole Hp) as [st [Hc [_ ->]]].
+  unfold F, ctl_proc. replace (Nat.eqb (fst p) 0) with false by (symmetry; apply Nat.eqb_neq; auto).
+  rewrite fired_freeze, Hf. apply sync_ctl_reset_bit; auto. left.
+  rewrite (Hrs (fst p) _ (apply_writes e cur)); auto. apply freeze_eqe.
+Qed.
+
+(* enable low, no reset: the register bit keeps its value, edge or not *)
+Theorem ctl_enable_low_keeps e cur p i b : 0 <= b -> sole_driver D p i b -> fst p <> 0%nat ->
+  (forall d a a', eqe a a' -> rs_of d a = rs_of d a') -> (forall d a a', eqe a a' -> en_of d a = en_of d a') ->
+  ~ In i (map fst e) ->
+  en_of (fst p) (apply_writes e cur) = false -> rs_of (fst p) (apply_writes e cur) = false ->
+  match d_rst (g_doms D (fst p)) with Some r => Z.land 1 (apply_writes e cur r) = 0 | None => True end ->
+  Z.testbit (step_ctl en_of rs_of D e cur i) b = Z.testbit (cur i) b.
+Proof.
+  intros Hb Hsole Hp Hrs Hen He Hen0 Hrs0 Hr. destruct (step_ctl_sole e cur p i b Hb Hsole Hp) as [st [Hc [Hn ->]]].
+  rewrite <- (apply_writes_other e cur i He), <- Hn.
+  unfold F, ctl_proc. replace (Nat.eqb (fst p) 0) with false by (symmetry; apply Nat.eqb_neq; auto).
+  destruct (fired _ _ _); auto.
+  rewrite (Hen (fst p) _ (apply_writes e cur)), (Hrs (fst p) _ (apply_writes e cur)) by apply freeze_eqe.
+  rewrite Hen0, Hrs0. rewrite sync_ctl_frozen; auto.
+  destruct (d_rst (g_doms D (fst p))); auto. rewrite Hc, freeze_eq. auto.
+Qed.
+
+(* a process whose controls are idle (enable high, no inserted reset) does exactly what the original process does:
+   reset-less registers of a reset domain and all registers of the other domains follow the original design *)
+Theorem ctl_idle_is_original e cur p i b : 0 <= b -> sole_driver D p i b -> fst p <> 0%nat ->
+  (forall d a a', eqe a a' -> rs_of d a = rs_of d a') -> (forall d a a', eqe a a' -> en_of d a = en_of d a') ->
+  en_of (fst p) (apply_writes e cur) = true ->
+  rs_of (fst p) (apply_writes e cur) = false \/ sd_reset_less (g_tab D i) = true ->
+  exists st, s_curr st = freeze (g_nsig D) (apply_writes e cur) /\
+    Z.testbit (s_next st i) b = Z.testbit (apply_writes e cur i) b /\
+    Z.testbit (step_ctl en_of rs_of D e cur i) b
+    = Z.testbit (s_next (sync_code (g_tab D) (snd p) (g_doms D (fst p)) cur (apply_writes e cur) st) i) b.
+Proof.
+  intros Hb Hsole Hp Hrs Hen Hen1 Hrs0. destruct (step_ctl_sole e cur p i b Hb Hsole Hp) as [st [Hc [Hn ->]]].
+  exists st. split; auto. split; auto.
+  unfold F, ctl_proc, sync_code. replace (Nat.eqb (fst p) 0) with false by (symmetry; apply Nat.eqb_neq; auto).
+  rewrite fired_freeze. destruct (fired _ _ _); auto.
+  rewrite (Hen (fst p) _ (apply_writes e cur)), (Hrs (fst p) _ (apply_writes e cur)) by apply freeze_eqe.
+  rewrite Hen1. destruct Hrs0 as [H0|Hrl].
+  - rewrite H0. rewrite sync_ctl_plain. reflexivity.
+  - f_equal. unfold sync_ctl, sync_process; cbn [s_next s_curr]. destruct (stmts_mask (snd p) i =? 0) eqn:E; auto.
+    rewrite Hrl. rewrite !andb_false_r. reflexivity.
+Qed.
+End SpecRun.
+
+(* ================= the same facts on the traces of the transformed designs ================= *)
+Lemma state_after_snoc stp pre e cur : state_after stp (pre ++ [e]) cur = stp e (state_after stp pre cur).
+Proof. unfold state_after. rewrite fold_left_app. reflexivity. Qed.
+
+Section InsertedTraces.
+Variables (D : design) (ctl : controls).
+Hypothesis Htab : tab_ok (g_tab D).
+Hypothesis Hctl : ctl_ok ctl.
+
+(* after any prefix of events: an own-domain edge with the inserted reset high loads init into every
+   non-reset-less bit whose sole driver is a process of a named domain *)
+Theorem reset_inserter_trace_loads_init pre e cur0 p c i b :
+  (forall q, In q (g_procs D) -> fst q <> 0%nat -> lookup (fst q) ctl <> None -> collector_ok (g_tab D) (snd q)) ->
+  let D' := map_procs (reset_entry (g_tab D) ctl) D in
+  let s := state_after (step D') pre cur0 in
+  0 <= b -> sole_driver D p i b -> fst p <> 0%nat -> lookup (fst p) ctl = Some c ->
+  Z.testbit (um (g_tab D) (snd p) i) b = true -> sd_reset_less (g_tab D i) = false ->
+  fired (g_doms D (fst p)) s (apply_writes e s) = true ->
+  ctl_on (apply_writes e s) c = true ->
+  Z.testbit (state_after (step D') (pre ++ [e]) cur0 i) b = Z.testbit (sd_init (g_tab D i)) b.
+Proof.
+  intros Hk D' s Hb Hsole Hp Hl Hd Hrl Hf Hon. rewrite state_after_snoc. fold s.
+  pose proof (reset_inserter_refines D ctl Htab Hctl Hk [e] s s (eqe_refl s) i) as R.
+  unfold state_after in R. cbn [fold_left] in R. fold D' in R. rewrite R.
+  apply (ctl_reset_loads_init D _ _ e s p); auto.
+  - intros; apply ctl_of_ext; auto.
+  - unfold ctl_of. rewrite Hl. auto.
+Qed.
+
+(* with the inserted enable low (and the domain's own reset low) every register bit of a named domain keeps
+   its value across any event, after any prefix *)
+Theorem enable_inserter_trace_keeps pre e cur0 p c i b :
+  let D' := map_procs (enable_entry ctl) D in
+  let s := state_after (step D') pre cur0 in
+  0 <= b -> sole_driver D p i b -> fst p <> 0%nat -> lookup (fst p) ctl = Some c -> ~ In i (map fst e) ->
+  ctl_on (apply_writes e s) c = false ->
+  match d_rst (g_doms D (fst p)) with Some r => Z.land 1 (apply_writes e s r) = 0 | None => True end ->
+  Z.testbit (state_after (step D') (pre ++ [e]) cur0 i) b = Z.testbit (s i) b.
+Proof.
+  intros D' s Hb Hsole Hp Hl He Hoff Hr. rewrite state_after_snoc. fold s.
+  pose proof (enable_inserter_refines D ctl Hctl [e] s s (eqe_refl s) i) as R.
+  unfold state_after in R. cbn [fold_left] in R. fold D' in R. rewrite R.
+  apply (ctl_enable_low_keeps D _ _ e s p); auto.
+  - intros; apply ctl_of_ext; auto.
+  - unfold ctl_of. rewrite Hl. auto.
+Qed.
+End InsertedTraces.
+
+(* ================= memory ports under the inserters ================= *)
+Lemma frag_mems_reset tab ctl f : frag_mems (reset_inserter tab ctl f) = frag_mems f.
+Proof.
+  induction f as [st ms subs IH] using frag_ind2. cbn [reset_inserter frag_mems]. f_equal.
+  induction subs as [|s subs IHs]; auto. inversion IH; subst. cbn [map flat_map]. f_equal; auto.
+Qed.
+
+Lemma frag_mems_enable ctl f : frag_mems (enable_inserter ctl f) = map (enable_mem ctl) (frag_mems f).
+Proof.
+  induction f as [st ms subs IH] using frag_ind2. cbn [enable_inserter frag_mems]. rewrite map_app. f_equal.
+  induction subs as [|s subs IHs]; auto. inversion IH; subst. cbn [map flat_map]. rewrite map_app. f_equal; auto.
+Qed.
+
+Lemma rmask1 v : rmask 1 v = Z.b2z (Z.testbit v 0).
+Proof. unfold rmask. change (Z.shiftl 1 1 - 1) with 1. apply land1. Qed.
+
+Lemma ctl_off_zero curr c : shape_of c = Sh 1 false -> ctl_on curr c = false -> rmask 1 (eval_rtl curr c) = 0.
+Proof.
+  intros Hs H. unfold ctl_on, ewidth in H. rewrite Hs in H. cbn [width] in H. rewrite rmask1 in *.
+  destruct (Z.testbit (eval_rtl curr c) 0); [discriminate|reflexivity].
+Qed.
+
+Lemma en_cat_zero g n : forall k, en_cat 0 g n k = 0.
+Proof. induction n as [|n IH]; intros k; cbn [en_cat]; auto. rewrite Z.testbit_0_l, IH. reflexivity. Qed.
+
+(* EnableInserter, enable low: the gated write enable of a write port is all zeros *)
+Theorem wen_gated_off curr w c en : shape_of c = Sh 1 false -> ctl_on curr c = false -> 0 <= ewidth en ->
+  wen_value curr w (mux_ctl c en) = 0.
+Proof.
+  intros Hs Hoff Hw. unfold wen_value.
+  assert (E : eval_rtl curr (mux_ctl c en) = 0).
+  { unfold ewidth in Hw. unfold mux_ctl, ewidth. rewrite Hs. cbn [width]. change (Z.to_nat 1) with 1%nat. cbn [repeat].
+    cbn [eval_rtl map fst snd shape_of]. unfold ewidth. rewrite Hs. cbn [width]. rewrite (ctl_off_zero curr c Hs Hoff).
+    unfold use_match. cbn [map forallb existsb has_dash negb andb orb rtl_switch rtl_case_match].
+    change (pat_value [Some false] =? 0) with true. cbn [orb].
+    rewrite rsign_norm by (unfold wf_shape; cbn; lia). rewrite const_norm_spec by (unfold wf_shape; cbn; lia).
+    rewrite norm_unsigned. unfold mask. rewrite Z.mod_0_l by (apply Z.pow_nonzero; lia). reflexivity. }
+  rewrite E, en_cat_zero. unfold rmask. apply Z.land_0_r.
+Qed.
+
+(* ... and the gated enable of a sync read port reads as 0 *)
+Theorem ren_gated_off curr c en : shape_of c = Sh 1 false -> shape_of en = Sh 1 false -> ctl_on curr c = false ->
+  Z.land 1 (eval_rtl curr (EOp2 OAnd en c)) = 0.
+Proof.
+  intros Hc He Hoff. destruct (ctl_on_and curr en c He Hc) as [Hs Hv]. rewrite Hoff, andb_false_r in Hv.
+  pose proof (ctl_off_zero curr _ Hs Hv) as Z0. unfold rmask in Z0. exact Z0.
+Qed.
+
+(* a write with an all-zero mask queues the row's own content *)
+Lemma zero_mask_value v old : Z.lor (Z.land v 0) (Z.land old (Z.lnot 0)) = old.
+Proof. rewrite Z.land_0_r, Z.lor_0_l. change (Z.lnot 0) with (-1). apply Z.land_m1_r. Qed.
+
+Lemma set_row_same : forall rw n, set_row rw n (nth n rw 0) = rw.
+Proof. induction rw as [|x rw IH]; intros n; cbn [set_row]; auto. destruct n; cbn [nth]; [reflexivity|]. rewrite IH. reflexivity. Qed.
+
+Definition q_idle (rw : rows) (q : wqueue) : Prop := forall av, In av q -> snd av = nth (Z.to_nat (fst av)) rw 0.
+
+Lemma qget_in q a v : qget q a = Some v -> In (a, v) q.
+Proof.
+  induction q as [|av q IH]; cbn [qget]; [discriminate|]. destruct (fst av =? a) eqn:E.
+  - intros H. inversion H; subst. apply Z.eqb_eq in E. left. destruct av; cbn in *; subst; reflexivity.
+  - intros H. right. auto.
+Qed.
+
+Lemma qset_idle rw q a : q_idle rw q -> q_idle rw (qset q a (nth (Z.to_nat a) rw 0)).
+Proof.
+  intros Hq. induction q as [|av q IH]; cbn [qset].
+  - intros x [<-|[]]. reflexivity.
+  - destruct (fst av =? a) eqn:E.
+    + apply Z.eqb_eq in E. intros x [<-|Hx]; [cbn; rewrite E; reflexivity|apply Hq; right; auto].
+    + intros x [<-|Hx]; [apply Hq; left; auto|]. apply IH; auto. intros y Hy. apply Hq. right. auto.
+Qed.
+
+Lemma mem_write_zero_idle s depth rw q a v : sgn s = false -> q_idle rw q -> q_idle rw (mem_write s depth rw q a v 0).
+Proof.
+  intros Hs Hq. unfold mem_write. destruct (in_depth depth a); auto.
+  rewrite zero_mask_value. unfold sign_fix. rewrite Hs.
+  destruct (qget q a) as [old|] eqn:E.
+  - apply qget_in in E. pose proof (Hq _ E) as H0. cbn [fst snd] in H0. rewrite H0. apply qset_idle; auto.
+  - apply qset_idle; auto.
+Qed.
+
+Lemma commit_idle rw q : q_idle rw q -> mem_commit rw q = rw.
+Proof.
+  unfold mem_commit. induction q as [|av q IH]; intros Hq; cbn [fold_left]; auto.
+  rewrite (Hq av (or_introl eq_refl)). rewrite set_row_same. apply IH. intros x Hx. apply Hq. right. auto.
+Qed.
+
+(* EnableInserter on a whole memory process: with the enable of domain d low at an edge of d the memory keeps its
+   rows and every sync read-data register of that domain keeps its value *)
+Theorem enable_mem_sync_frozen tab ctl m d c rw st :
+  lookup d ctl = Some c -> shape_of c = Sh 1 false -> ctl_on (s_curr st) c = false ->
+  sgn (mi_shape m) = false ->
+  (forall p, In p (mi_wports m) -> 0 <= ewidth (wp_en p)) ->
+  (forall p, In p (mi_rports m) -> rp_dom p = d -> shape_of (rp_en p) = Sh 1 false) ->
+  let r := mem_sync tab (enable_mem ctl m) d rw (st, []) in
+  mem_commit rw (snd r) = rw /\ forall i, s_next (fst r) i = s_next st i.
+Proof.
+  intros Hl Hc Hoff Hsg Hw Hr r. subst r. unfold mem_sync. cbn [fst snd enable_mem mi_wports mi_rports mi_shape mi_depth].
+  split.
+  - apply commit_idle. rewrite map_map.
+    assert (G : forall ws q, (forall p, In p ws -> 0 <= ewidth (wp_en p)) -> q_idle rw q ->
+              q_idle rw (fold_left (fun q o => match o with
+                 | Some t => mem_write (mi_shape m) (mi_depth m) rw q (fst (fst t)) (snd (fst t)) (snd t)
+                 | None => q end) (map (fun x => port_wvals (s_curr st) d (enable_wport ctl x)) ws) q)).
+    { induction ws as [|p ws IH]; intros q Hws Hq; cbn [map fold_left]; auto.
+      apply IH; [intros; apply Hws; simpl; auto|].
+      unfold port_wvals, enable_wport. destruct (lookup (wp_dom p) ctl) as [c'|] eqn:E; cbn [wp_dom wp_addr wp_data wp_en].
+      - destruct (Nat.eqb (wp_dom p) d) eqn:Ed; auto. apply Nat.eqb_eq in Ed. rewrite Ed, Hl in E. inversion E; subst c'.
+        cbn [fst snd]. rewrite wen_gated_off by (auto; apply Hws; simpl; auto). apply mem_write_zero_idle; auto.
+      - destruct (Nat.eqb (wp_dom p) d) eqn:Ed; auto. apply Nat.eqb_eq in Ed. rewrite Ed, Hl in E. discriminate. }
+    apply G; auto. intros x [].
+  - intros i. cbn [s_next]. destruct (mem_masks _ i =? 0); auto.
+    match goal with |- slot_update _ (fold_left ?F ?l ?n i) _ = _ => assert (E : fold_left F l n = n) end.
+    { generalize (s_next st) as nx.
+      assert (Hin : forall p, In p (filter (fun p => Nat.eqb (rp_dom p) d) (map (enable_rport ctl) (mi_rports m))) ->
+                Z.land 1 (eval_rtl (s_curr st) (rp_en p)) = 0).
+      { intros p Hp. apply filter_In in Hp. destruct Hp as [Hp Hd]. apply Nat.eqb_eq in Hd.
+        apply in_map_iff in Hp. destruct Hp as [p0 [<- Hp0]]. unfold enable_rport in *.
+        destruct (lookup (rp_dom p0) ctl) as [c'|] eqn:E; cbn [rp_dom rp_en] in *.
+        - rewrite Hd, Hl in E. inversion E; subst c'. apply ren_gated_off; auto.
+        - rewrite Hd, Hl in E. discriminate. }
+      induction (filter _ _) as [|p l IH]; intros nx; cbn [fold_left]; auto.
+      unfold read_port_sync at 2. rewrite (Hin p) by (simpl; auto). cbn. apply IH. intros; apply Hin; simpl; auto. }
+    rewrite E. apply slot_update_same.
+Qed.
